@@ -317,6 +317,17 @@ func run(r *core.Run) int {
 			cases = append(cases, mk([]sims.CertPlan{mkPlan(o, c)}, "validate", "http", "", false))
 		}
 	}
+	// distribution points that differ only in their query string / in the letter
+	// case of their path: a genuine first point must not vouch for a faulty second
+	for _, kind := range []string{"httpq", "httpc"} {
+		for _, f := range crlAssign {
+			for _, cache := range []string{"", "healthy"} {
+				for _, order := range [][]slot{{{kind, "clean"}, {kind, f}}, {{kind, f}, {kind, "clean"}}} {
+					cases = append(cases, mk([]sims.CertPlan{mkPlan(nil, order)}, "validate", "http", cache, false))
+				}
+			}
+		}
+	}
 	r.Set("single_certificate_cases", len(cases))
 	// (2) entry points, caches, cancellation over sampled assignments
 	rng = r.Rand("sampled")
